@@ -249,6 +249,41 @@ func (x *Exec) callExternal(st *State, call *ast.CallExpr, callee *types.Func, p
 		e := x.fresh("err", SInt)
 		return []Value{sc(x.fresh("nw", SInt)), OpaqueV{T: e, Typ: types.Universe.Lookup("error").Type()}}
 	}
+	// standard-library functions that are deterministic functions of their arguments and write nothing the repository
+	// can observe: modelled as uninterpreted functions of (argument values, slice contents and lengths). Sound but
+	// uninformative: anything that depends on the value they return stays undecided.
+	if recv == nil && pureStdlib(path) {
+		sig := callee.Type().(*types.Signature)
+		okSig := true
+		for i := 0; i < sig.Params().Len(); i++ {
+			switch u := sig.Params().At(i).Type().Underlying().(type) {
+			case *types.Basic:
+			case *types.Slice:
+				if _, basic := u.Elem().Underlying().(*types.Basic); !basic {
+					okSig = false
+				}
+			default:
+				okSig = false
+			}
+		}
+		for i := 0; i < sig.Results().Len(); i++ {
+			if _, basic := sig.Results().At(i).Type().Underlying().(*types.Basic); !basic {
+				okSig = false
+			}
+		}
+		if okSig && !sig.Variadic() {
+			as := args()
+			ats := x.absArgs(st, as)
+			var out []Value
+			for i := 0; i < sig.Results().Len(); i++ {
+				rs := x.modeSort(scalarSort(sig.Results().At(i).Type()))
+				name := fmt.Sprintf("ext%d_%s", i, symSan.ReplaceAllString(path, "_"))
+				out = append(out, sc(x.eng.absApp(name, ats, rs)))
+			}
+			x.eng.note(x.key, "call of "+path+" modelled as an uninterpreted deterministic function (no contract for it)")
+			return out
+		}
+	}
 	fail("external function %s has no trusted contract (called at %s)", path, x.pos(call.Pos()))
 	return nil
 }
@@ -296,4 +331,24 @@ func (x *Exec) noteOSErr(st *State, e Term) {
 	none := OpaqueV{T: Int(0)}
 	cur := x.ghostGet(st, "oserr", none, SBool)
 	x.ghostSet(st, "oserr", none, Or(cur, Neq(e, Int(0))))
+}
+
+// pureStdlib: packages / functions of the standard library that neither keep state nor write through their arguments.
+func pureStdlib(path string) bool {
+	for _, pre := range []string{"math.", "math/bits.", "math/cmplx.", "unicode.", "unicode/utf8.", "strconv.Itoa", "strconv.Quote", "strconv.FormatInt"} {
+		if strings.HasPrefix(path, pre) {
+			return !strings.HasPrefix(path, "math.rand") // math/rand has a different path, kept for clarity
+		}
+	}
+	switch path {
+	case "bytes.Count", "bytes.Equal", "bytes.Compare", "bytes.Contains", "bytes.Index", "bytes.IndexByte", "bytes.LastIndex",
+		"bytes.LastIndexByte", "bytes.HasPrefix", "bytes.HasSuffix", "bytes.ContainsAny", "bytes.EqualFold",
+		"strings.Count", "strings.Compare", "strings.Contains", "strings.Index", "strings.IndexByte", "strings.LastIndex",
+		"strings.HasPrefix", "strings.HasSuffix", "strings.EqualFold", "strings.ToUpper", "strings.ToLower", "strings.TrimSpace",
+		"strings.TrimSuffix", "strings.TrimPrefix", "strings.Repeat",
+		"sort.SearchInts", "sort.SearchFloat64s", "sort.IntsAreSorted", "sort.Float64sAreSorted",
+		"path/filepath.Base", "path/filepath.Ext", "path/filepath.Clean", "path/filepath.IsAbs", "path/filepath.Dir":
+		return true
+	}
+	return false
 }
